@@ -48,6 +48,7 @@ type zzC13Sess struct {
 	cancelledAt int
 	pingCtxs   []context.Context
 	leaked     bool
+	failureKind int // what a failed ping looks like in this run: generic error / timeout / closed connection
 }
 
 func (s *zzC13Sess) Ping(ctx context.Context, p *PingParams) error {
@@ -68,6 +69,14 @@ func (s *zzC13Sess) Ping(ctx context.Context, p *PingParams) error {
 	case 1:
 		return fmt.Errorf("%w: %q", jsonrpc2.ErrMethodNotFound, "ping")
 	}
+	// a miss: the ping timed out (its context expired), the connection reported itself closed, or any other error
+	switch s.failureKind {
+	case 1:
+		vCtxCancel(ctx, context.DeadlineExceeded)
+		return ctx.Err()
+	case 2:
+		return fmt.Errorf("%w: calling %q", ErrConnectionClosed, "ping")
+	}
 	return zzErrPing
 }
 func (s *zzC13Sess) Close() error {
@@ -80,7 +89,7 @@ func zzC13() {
 	thr := vInt("threshold") // any int
 	interval := vIntRange("interval", 2, 1<<40)
 	var cancel context.CancelFunc
-	s := &zzC13Sess{cancel: &cancel}
+	s := &zzC13Sess{cancel: &cancel, failureKind: vChoice("failureKind", 3)}
 	startKeepalive(s, time.Duration(interval), thr, &cancel, nil)
 	vAssert(cancel != nil, "C13.cancel-assigned-before-return")
 	vAssert(vNumSpawned() == 1, "C13.one-goroutine")
